@@ -14,10 +14,12 @@ template class BucketOne<C12IT, 1>;
 struct C12Getter { size_t operator()() const { return 0; } };
 struct C12Creator { void operator()(uint64_t*) const {} };
 struct C12Replacer { void operator()(uint64_t&, uint64_t&) const {} };
+struct C12Pred { bool operator()(const uint64_t&) const { return true; } };
 // one use of every member template so that clang instantiates the bodies
 inline void c12_use(C12O2& a, C12O2::Params& pa, C12P4& b, C12P4::Params& pb, C12One& c, C12One::Params& pc)
 {
-	C12Getter g; C12Creator cr; C12Replacer rp;
+	C12Getter g; C12Creator cr; C12Replacer rp; C12Pred pr;
+	a.template Find<true>(pa, pr, 0); b.template Find<true>(pb, pr, 0); c.template Find<true>(pc, pr, 0);
 	auto ia = a.AddCrt(pa, cr, 0, 0, 0); a.GetHashCodePart(g, ia, 0, 0, 0); a.Remove(pa, ia, rp);
 	auto ib = b.AddCrt(pb, cr, 0, 0, 0); b.GetHashCodePart(g, ib, 0, 0, 0); b.Remove(pb, ib, rp);
 	auto ic = c.AddCrt(pc, cr, 0, 0, 0); c.GetHashCodePart(g, ic, 0, 0, 0); c.Remove(pc, ic, rp);
